@@ -183,7 +183,7 @@ def run(ctx):
     for N, full, reg in plan:
         V = alphabet(full, reg)
         tasks = [(v, N, full, reg) for v in V]
-        res = pool.pmap(_chunk, tasks, chunk=1)
+        res = pool.pmap(_chunk, tasks, chunk=1, timeout=7200)
         n0 = total
         for r in res:
             if r == "TIMEOUT":
